@@ -55,7 +55,17 @@ def cases(draw):
     # nested dicts as ordered pair lists so that insertion order is part of the case
     params = [[n, [[k, v[k]] for k in v] if isinstance(v, dict) else v, isinstance(v, dict)] for n, v in params]
     nperm = draw(st.integers(1, 3))
-    return {"params": params, "perm_seeds": [draw(st.integers(0, 10 ** 6)) for _ in range(nperm)],
+    second = None
+    if params and draw(st.integers(0, 2)) == 0:
+        # another batch of the same file: same parameter and sub-parameter names in the same order, other values
+        # for some of them (a batch file typically holds several such batches, expanded one after the other)
+        second = []
+        for n, v, nested in params:
+            if nested:
+                second.append([n, [[k, draw(value_spec(False)) if draw(st.booleans()) else vv] for k, vv in v], True])
+            else:
+                second.append([n, draw(value_spec(False)) if draw(st.integers(0, 3)) == 0 else v, False])
+    return {"second": second, "params": params, "perm_seeds": [draw(st.integers(0, 10 ** 6)) for _ in range(nperm)],
             "global": draw(st.dictionaries(st.sampled_from(["timeout", "output", "log"]),
                                            st.sampled_from(["3", "out.yaml", ""]), max_size=2)),
             "files": draw(st.lists(st.sampled_from(["f1.yaml", "dir/f2.yml"]), max_size=2))}
@@ -148,7 +158,18 @@ def tokenise(s):
 
 
 def run_case(case):
-    params = case["params"]
+    out = _run_one(case, case["params"])
+    if out.ok and case.get("second"):
+        out2 = _run_one(case, case["second"])
+        out2.labels = out.labels + ["second-definition"]
+        out2.nontrivial = out.nontrivial or out2.nontrivial
+        if not out2.ok:
+            out2.why = "[second definition expanded in the same process, after %r] %s" % (build(case["params"]), out2.why)
+        return out2
+    return out
+
+
+def _run_one(case, params):
     labels = ["params:%d" % len(params)]
     multi = sum(1 for n, v, nested in params if not nested and isinstance(v, list) and len(v) >= 2)
     nested_multi = any(nested and any(isinstance(vv, list) and len(vv) >= 2 for _, vv in v) for n, v, nested in params)
